@@ -3,7 +3,7 @@ from analysis.runner import rule
 from analysis.facts import AnchorError
 from analysis import terms as T, k2
 from analysis.cfg import cfg_of
-from analysis.effects import subterms
+from analysis.effects import canon, subterms
 
 THOROUGH_CONFIGS = ['release', 'nobmi2', 'movegen-alone']
 LEVEL = "other"
@@ -349,14 +349,14 @@ def r6(ctx):
             for t, v in lf.cond:
                 if t[0] == "discr" and t[1][0] == "app" and t[1][1] == NEXT:
                     a = t[1][2][0]
-                    doms.add(acnorm(iter_domain(a[1] if a[0] == "refv" else a)))
+                    doms.add(canon(iter_domain(a[1] if a[0] == "refv" else a)))
         q = C.pieces("Queen")
         ksqs = [s_ for d in doms for s_ in subterms(d) if is_ksq(s_)]
         ok_dom = False
         if ksqs:
             k0 = ksqs[0]
             ray = lambda n: word(("app", "chess_lookup::" + n, (k0,)))
-            want = acnorm(C.AND(opp, C.OR(C.AND(C.OR(C.pieces("Bishop"), q), ray("bishop_rays")), C.AND(C.OR(C.pieces("Rook"), q), ray("rook_rays")))))
+            want = canon(C.AND(opp, C.OR(C.AND(C.OR(C.pieces("Bishop"), q), ray("bishop_rays")), C.AND(C.OR(C.pieces("Rook"), q), ray("rook_rays")))))
             ok_dom = doms == {want}
         ctx.ob(f"slider candidates[{turn}]", ok_dom, f"update_pin_info ({turn}) scans {[T.show(d)[:160] for d in doms]}; expected enemy & ((bishops|queens) & bishop_rays(king) | (rooks|queens) & rook_rays(king))",
                site=site, sample="enemy sliders on the king's rays")
@@ -366,6 +366,6 @@ def r6(ctx):
                 if t[0] == "bin" and t[1] == "Eq" and T.I(0, "u64") in (t[2], t[3]):
                     x = t[2] if t[3] == T.I(0, "u64") else t[3]
                     b = [s_ for s_ in subterms(x) if s_[0] == "app" and s_[1] == "chess_lookup::between"]
-                    if len(b) == 1 and is_ksq(b[0][2][0]) and acnorm(x) == acnorm(C.AND(C.all(), word(b[0]))):
+                    if len(b) == 1 and is_ksq(b[0][2][0]) and canon(x) == canon(C.AND(C.all(), word(b[0]))):
                         btw_ok = True
         ctx.ob(f"blockers on full occupancy[{turn}]", btw_ok, f"update_pin_info ({turn}): blockers are not computed as occupancy & between(king, slider)", site=site)
